@@ -65,7 +65,7 @@ def monitor_sched(case_lines, out_lines, S, F):
     """oracles on one implementation trace; returns list of (prop, sig, msg)"""
     V = []
     if out_lines and out_lines[0].startswith("died"):
-        for p_ in ("C01", "C02", "C03", "C04", "C07", "C08", "C15", "C19"):
+        for p_ in ("C01", "C02", "C03", "C04", "C07", "C08", "C12", "C13", "C15", "C19"):
             V.append((p_, "impl-crash", f"the implementation killed the process ({out_lines[0].strip()}: SIGSEGV / abort inside the crate) while this schedule was running"))
         return V
     progs = parse_case_file(case_lines)
@@ -227,7 +227,7 @@ def monitor_sched(case_lines, out_lines, S, F):
             elif op[0] == "verify" and o.get("v") == "0":
                 V.append(("C02", "bytes-changed", f"t={tid} verify {op[1]}: the bytes of a live handle were modified by someone else"))
         elif kind == "died":
-            for p_ in ("C01", "C02", "C03", "C04", "C07", "C08", "C15", "C19"):
+            for p_ in ("C01", "C02", "C03", "C04", "C07", "C08", "C12", "C13", "C15", "C19"):
                 V.append((p_, "impl-crash", f"the implementation killed the process ({l.strip()}: SIGSEGV/abort inside the crate) while this schedule was running"))
         elif kind == "hang":
             sig = site_name(o.get("at"), S, F)
